@@ -11,6 +11,8 @@ package list
 //@ func (*Element).GetID
 //@   pure
 //@   opt uf item_id
+//@ func (*Element).GetExpiry
+//@   pure
 //@ func Item.GetID
 //@   pure
 //@   opt uf item_id
@@ -22,18 +24,26 @@ package list
 //@   trusted
 //@   noframe
 //@   ensures isnil(result) == (gint("len", l) == 0)
+//@   ensures !isnil(result) ==> has(gmap("q", l), str(Element.GetID(result)))
 //@ func (*List).PushBack
 //@   trusted
 //@   noframe
 //@   modifies gint("len", l)
+//@   modifies gmap("q", l)[]
 //@   ensures gint("len", l) == old(gint("len", l)) + 1 && !isnil(result) && Element.GetID(result) == Item.GetID(v)
+//@   ensures has(gmap("q", l), str(Item.GetID(v))) && (forall q string :: q != str(Item.GetID(v)) ==> has(gmap("q", l), q) == old(has(gmap("q", l), q)))
 //@ func (*List).PushFront
 //@   trusted
 //@   noframe
 //@   modifies gint("len", l)
+//@   modifies gmap("q", l)[]
 //@   ensures gint("len", l) == old(gint("len", l)) + 1 && !isnil(result) && Element.GetID(result) == Item.GetID(v)
+//@   ensures has(gmap("q", l), str(Item.GetID(v))) && (forall q string :: q != str(Item.GetID(v)) ==> has(gmap("q", l), q) == old(has(gmap("q", l), q)))
 //@ func (*List).Remove
 //@   trusted
 //@   noframe
 //@   modifies gint("len", l)
+//@   modifies gmap("q", l)[]
 //@   ensures gint("len", l) == old(gint("len", l)) - 1
+//@   ensures Item.GetID(result) == Element.GetID(e)
+//@   ensures !has(gmap("q", l), str(Element.GetID(e))) && (forall q string :: q != str(Element.GetID(e)) ==> has(gmap("q", l), q) == old(has(gmap("q", l), q)))
